@@ -48,6 +48,9 @@ func genDoc(c *Ctx, i int) (string, []string, map[string]interface{}) {
 	for j := 0; j < k; j++ {
 		g := &QGen{R: r, Schema: MonoSchema(), F: QFeat{Inline: true, Named: r.Intn(2) == 0, Directives: false, AliasShadow: r.Intn(3) == 0, Typename: true, IDHeavy: true, Depth: 2}}
 		name := fmt.Sprintf("Op%d", j)
+		if j == 1 && r.Intn(4) == 0 {
+			name = "op0" // names are case-sensitive: Op0 and op0 are two operations
+		}
 		q := g.Query(name)
 		// rename fragments per operation to keep definitions unique
 		for f := 0; f < 40; f++ {
@@ -90,7 +93,8 @@ func (c17) Run(c *Ctx, i int) CaseResult {
 		var doc string
 		doc, names, in.Vars = genDoc(c, i)
 		in.Query = doc
-		names = append(names, "", "Zzz")
+		// no name, a name no operation has, and names that differ from an operation's only in the case of their letters
+		names = append(names, "", "Zzz", strings.ToUpper(names[0]), strings.ToLower(names[len(names)-1]))
 		_ = r
 		id = fmt.Sprintf("gen:%d", i)
 	}
